@@ -35,31 +35,55 @@ fn main() {
         std::process::exit(2);
     }
     let kv = util::Args::parse(&args[2..]);
-    let rc = match args[1].as_str() {
-        "c01" => c01::run(&kv),
-        "c02" => c02::run(&kv),
-        "c03" => c03::run(&kv),
-        "c04" => c04::run(&kv),
-        "c05" => c05::run(&kv),
-        "c06" => c06::run(&kv),
-        "c07" => c07::run(&kv),
-        "c08" => c08::run(&kv),
-        "c09" => c09::run(&kv),
-        "c10" => c10::run(&kv),
-        "c11" => c11::run(&kv),
-        "c12" => c12::run(&kv),
-        "c13" => c13::run(&kv),
-        "c14" => c14::run(&kv),
-        "c15" => c15::run(&kv),
-        "c16" => c16::run(&kv),
-        "c17" => c17::run(&kv),
-        "c18" => c18::run(&kv),
-        "c19" => c19::run(&kv),
-        "c20" => c20::run(&kv),
+    // remember the last panic (message, location, announced case); written out only if nothing catches it
+    let default_hook = std::panic::take_hook();
+    std::panic::set_hook(Box::new(move |info| {
+        let rec = format!("case={} :: {}", util::current_case(), info);
+        *util::LAST_PANIC.lock().unwrap_or_else(|e| e.into_inner()) = Some(rec);
+        default_hook(info);
+    }));
+    let out_dir = kv.get("out").map(|s| s.to_string());
+    let prop = args[1].clone();
+    let res = std::panic::catch_unwind(std::panic::AssertUnwindSafe(|| dispatch(&prop, &kv)));
+    let rc = match res {
+        Ok(rc) => rc,
+        Err(_) => {
+            if let Some(d) = out_dir {
+                let rec = util::LAST_PANIC.lock().unwrap_or_else(|e| e.into_inner()).clone().unwrap_or_default();
+                let _ = std::fs::write(format!("{d}/harness_panic.txt"), rec);
+            }
+            101
+        }
+    };
+    std::process::exit(rc);
+}
+
+fn dispatch(prop: &str, kv: &util::Args) -> i32 {
+    let kv = kv;
+    match prop {
+        "c01" => c01::run(kv),
+        "c02" => c02::run(kv),
+        "c03" => c03::run(kv),
+        "c04" => c04::run(kv),
+        "c05" => c05::run(kv),
+        "c06" => c06::run(kv),
+        "c07" => c07::run(kv),
+        "c08" => c08::run(kv),
+        "c09" => c09::run(kv),
+        "c10" => c10::run(kv),
+        "c11" => c11::run(kv),
+        "c12" => c12::run(kv),
+        "c13" => c13::run(kv),
+        "c14" => c14::run(kv),
+        "c15" => c15::run(kv),
+        "c16" => c16::run(kv),
+        "c17" => c17::run(kv),
+        "c18" => c18::run(kv),
+        "c19" => c19::run(kv),
+        "c20" => c20::run(kv),
         other => {
             eprintln!("unknown property {other}");
             2
         }
-    };
-    std::process::exit(rc);
+    }
 }
